@@ -101,6 +101,11 @@ CHECKS = {
          "~250 objects (thorough more) of 12 serialisable types built through the library's constructors with part lengths at every prefix boundary; for each the drain machine is explored for every buffer size 1..n+1 (n <= 96) or around every power-of-two boundary: every transition must return the next bytes of the reference encoding, make progress and end with io.EOF — by induction this decides all buffer-size sequences and termination; size prefixes are compared with the bytes that follow; Transaction/Field/User/FileNameWithInfo/InfoFork/FilePath/ResumeData/ServerRecord/handshake/preamble/news-path/int decoders and the transaction scanner are applied to reference bytes with trailing garbage.",
          "Objects = what the library's constructors/decoders can produce; reference codec written from the protocol document; very long encodings use boundary buffer sizes only.",
          "DESIGN.md §5 C01"),
+ "C03": ("model_checking",
+         "bounded-exhaustive mutation enumeration of one canonical request per transaction type (and of transfer streams) on the real connection/transfer loops with a sentinel client, plus stateless schedule exploration (deviation-bounded DFS with hold-back) of five concurrency scenarios",
+         "~26,000 single mutations (thorough more) — truncation at every byte, every length word set to boundary values, every field dropped/duplicated/replaced, unknown type — sent before login, after a guest login and after an administrator login, and mutated upload / folder-upload / folder-download streams and reference numbers on the transfer port; scenarios: account changes vs. a half-open connection, two connections through the real accept loop, one reference number on two transfer connections, a client that stops reading during a 40 KB broadcast, a disconnect during a broadcast. Per execution: no un-recovered panic, nothing wedged, the sentinel (user list and a transfer request) answered while the hostile peer is silent, user list and connection/transfer counters back at the baseline afterwards.",
+         "Declared allocation sizes are capped at 1 MiB as in the quantifier; a watchdog (30 s / 3 GiB per case) reports runaway cases as a cap; the unsynchronised rate-limiter map of Serve is only reachable by the race oracle (not built, see DESIGN.md).",
+         "DESIGN.md §5 C03"),
 }
 NOT_YET = "check not built yet in this session (see DESIGN.md §11 build order)"
 
